@@ -2500,6 +2500,12 @@ class StdCleanuper:
             return elem_no_squash
 
         if t_elem.is_leaf():
+            if isinstance(t_elem.value, list):
+                # it is a sequence (ProdSequence): its elements are not
+                # processed yet
+                for child_elem in t_elem.value:
+                    if isinstance(child_elem, TElement):
+                        self._cleanup(child_elem)
             return elem_no_squash
 
         values = []
